@@ -25,7 +25,8 @@
 
 typedef struct { int thorough; int partial_every; int copy_every; } ctx_t;
 
-typedef struct { size_t k; size_t partial; uint8_t cls; } image_t;   /* cls: 0 between writes, 1 torn append, 2 torn in-place chunk-header update, 3 torn in-place payload (head table / file header) */
+typedef struct { size_t k; size_t partial; uint8_t cls; } image_t;   /* cls: 0 between writes, 1 torn append, 2 torn in-place chunk-header update, 3 torn in-place payload (head table / file header),
+                                                                      * 4 the properly closed file cut short to `partial` bytes (all in-place updates applied, the tail missing) */
 
 typedef struct {
     prog_t p; model_t m;
@@ -39,6 +40,7 @@ typedef struct {
     int omission;                /* some level-0 block of the final file is omitted (index entry 0) */
     uint8_t sig_omission[256];   /* ... per signal */
     image_t *img; size_t nimg;
+    size_t *cuts; size_t ncuts;  /* sizes to which the closed file is truncated */
     char feat[200];
 } plan_t;
 
@@ -182,6 +184,16 @@ static int run_and_plan(plan_t *pl, rng_t *r, const char *path, const ctx_t *c) 
                 if (found) pl->data_start[s][pl->ndata[s]++] = mi;
             }
         }
+        /* truncations of the closed file: at chunk boundaries, inside headers, inside payloads, just before a payload CRC */
+        {
+            size_t cap2 = 6 * d.n + 8; pl->cuts = calloc(cap2, sizeof(size_t));
+            for (size_t i = 0; i < d.n; ++i) {
+                uint64_t off = d.ch[i].off, plen = d.ch[i].plen;
+                uint64_t full = plen ? 32 + (((plen + 4) + 7) & ~7ULL) : 32;
+                uint64_t cand[6] = {off, off + 8, off + 31, off + 32 + plen / 2, off + full - 4, off + full - 1};
+                for (int q = 0; q < 6; ++q) if (cand[q] > 32 && cand[q] < d.size) pl->cuts[pl->ncuts++] = (size_t) cand[q];
+            }
+        }
         jd_free(&d);
     }
     /* enumerate images */
@@ -204,10 +216,19 @@ static int run_and_plan(plan_t *pl, rng_t *r, const char *path, const ctx_t *c) 
         if (len <= 40) { for (uint32_t q = 1; q < len; ++q) ADD(k, q); }
         else { uint32_t qs[6] = {1, 7, 8, len / 2, len - 5, len - 1}; for (int q = 0; q < 6; ++q) ADD(k, qs[q]); }
     }
+    /* the closed file cut short: every candidate in the thorough tier, an evenly spaced selection of 48 otherwise */
+    {
+        size_t step = (c->thorough || pl->ncuts <= 48) ? 1 : pl->ncuts / 48;
+        for (size_t q = (size_t) (g_prog_index % (step ? step : 1)); q < pl->ncuts; q += step) {
+            if (pl->nimg == cap) { cap = cap ? cap * 2 : 1024; pl->img = realloc(pl->img, cap * sizeof(image_t)); }
+            pl->img[pl->nimg].k = pl->nmut; pl->img[pl->nimg].partial = pl->cuts[q]; pl->img[pl->nimg].cls = 4; pl->nimg++;
+        }
+    }
     return 0;
 }
 
 static void plan_free(plan_t *pl) {
+    free(pl->cuts);
     for (int s = 0; s < 256; ++s) free(pl->data_start[s]);
     free(pl->op_end); free(pl->img);
     model_free(&pl->m); prog_free(&pl->p);
@@ -239,6 +260,7 @@ static int g_omission;
 static const char *cut_class(const image_t *im) {
     static const char *n[] = {"between-writes", "torn-append", "torn-header-update", "torn-inplace-payload"};
     static const char *no[] = {"omitted-blocks/between-writes", "omitted-blocks/torn-append", "omitted-blocks/torn-header-update", "omitted-blocks/torn-inplace-payload"};
+    if (im->cls == 4) return g_omission ? "omitted-blocks/truncated-closed" : "truncated-closed";
     if (g_omission) return no[im->cls & 3];
     return n[im->cls & 3];
 }
@@ -252,7 +274,9 @@ static void image_case(uint64_t ii, void *vctx) {
     static char chk[64];
     snprintf(chk, sizeof(chk), "crash:image=%llu", (unsigned long long) ii);
     g_check = chk;
-    uint8_t *img; size_t n = iolog_image(im->k, im->partial, &img);
+    int cutc = im->cls == 4;
+    uint8_t *img; size_t n = iolog_image(im->k, cutc ? 0 : im->partial, &img);
+    if (cutc && im->partial < n) n = im->partial;
     const char *path = v_path("image.jls");
     if (write_file(path, img, n)) { free(img); return; }
     uint64_t h_image = fnv1a(img, n, FNV_INIT);
@@ -267,9 +291,9 @@ static void image_case(uint64_t ii, void *vctx) {
     v_api("jls_rd_open");
     int32_t rc = jls_rd_open(&rd, path);
     v_api("");
-    int clause2 = (im->partial == 0) && (im->k >= pl->k_def) && pl->k_def > 0;
+    int clause2 = !cutc && (im->partial == 0) && (im->k >= pl->k_def) && pl->k_def > 0;
     v_count("C03", "images", 1);
-    v_count("C03", im->partial ? "images_mid_write" : "images_between_writes", 1);
+    v_count("C03", cutc ? "images_closed_file_cut_short" : im->partial ? "images_mid_write" : "images_between_writes", 1);
     if (pl->levels >= 2) v_count("C03", "images_from_programs_with_2plus_levels", 1);
     if (rc) {
         v_count("C03", "open_returned_error", 1);
@@ -289,7 +313,9 @@ static void image_case(uint64_t ii, void *vctx) {
     dump_reader(rd, &d1, ds);
     int64_t lengths[256];
     for (int i = 0; i < 256; ++i) lengths[i] = -2;
-    verify_prefix(rd, &pl->m, "C03", &r, path, lengths, cut_class(im));
+    /* a closed file cut short is not a prefix of the writer's writes (its in-place updates are all there): C03 says nothing about what it
+     * still holds; C19 and C05 do about the state the repairing open leaves behind */
+    if (!cutc) verify_prefix(rd, &pl->m, "C03", &r, path, lengths, cut_class(im));
     v_api("jls_rd_close");
     jls_rd_close(rd);
     v_api("");
@@ -348,7 +374,8 @@ static void image_case(uint64_t ii, void *vctx) {
                 int dup = 0;
                 for (int j = 0; j < i; ++j) if (!strcmp(d.err[j].rule, d.err[i].rule)) dup = 1;
                 if (dup) continue;
-                if (g_omission || im->cls == 2) snprintf(key, sizeof(key), "repaired-malformed|%s", cut_class(im));
+                if (cutc) snprintf(key, sizeof(key), "rule|%s|repaired|truncated-closed", d.err[i].rule);
+                else if (g_omission || im->cls == 2) snprintf(key, sizeof(key), "repaired-malformed|%s", cut_class(im));
                 else snprintf(key, sizeof(key), "rule|%s|repaired|%s", d.err[i].rule, cut_class(im));
                 v_violation("C05", key, wj, "%s", d.err[i].msg);
                 v_violation("C19", key, wj, "repaired file is not well formed: %s", d.err[i].msg);
@@ -359,8 +386,8 @@ static void image_case(uint64_t ii, void *vctx) {
     /* C17: unclosed original -> copy */
     /* cut points between two writes every copy_every-th image; writes torn in the middle (torn appends, torn in-place header
      * updates: the copy then has to resynchronise behind an unreadable chunk) every 4*copy_every-th, torn header updates always */
-    int torn_hdr = im->partial && (im->cls & 3) == 2;
-    if (ic->c->copy_every && im->k >= pl->k_def && (torn_hdr || (ii % (uint64_t) (im->partial ? 4 * ic->c->copy_every : ic->c->copy_every)) == 0)) {
+    int torn_hdr = im->partial && im->cls == 2;
+    if (!cutc && ic->c->copy_every && im->k >= pl->k_def && (torn_hdr || (ii % (uint64_t) (im->partial ? 4 * ic->c->copy_every : ic->c->copy_every)) == 0)) {
         const char *src = v_path("unclosed.jls"), *dst = v_path("unclosed-copy.jls");
         img = NULL; n = iolog_image(im->k, im->partial, &img);
         write_file(src, img, n); free(img);
@@ -415,7 +442,8 @@ static void run_case(uint64_t idx, void *vctx) {
     if (getenv("VERIF_IMAGE")) {   /* debugging aid: materialise one image and its repaired form */
         uint64_t ii = strtoull(getenv("VERIF_IMAGE"), NULL, 0);
         if (ii < pl.nimg) {
-            uint8_t *img; size_t n = iolog_image(pl.img[ii].k, pl.img[ii].partial, &img);
+            uint8_t *img; size_t n = iolog_image(pl.img[ii].k, pl.img[ii].cls == 4 ? 0 : pl.img[ii].partial, &img);
+            if (pl.img[ii].cls == 4 && pl.img[ii].partial < n) n = pl.img[ii].partial;
             write_file(v_path("dbg-image.jls"), img, n); write_file(v_path("dbg-repaired.jls"), img, n); free(img);
             struct jls_rd_s *rd = NULL; int32_t rc = jls_rd_open(&rd, v_path("dbg-repaired.jls"));
             fprintf(stderr, "image %llu k=%zu partial=%zu cls=%d size=%zu open rc=%d\n", (unsigned long long) ii, pl.img[ii].k, pl.img[ii].partial, pl.img[ii].cls, n, rc);
